@@ -225,10 +225,20 @@ func checkC03(c *Check, p *Program) {
 	})
 
 	// ---- S2: identical retransmission
+	// a transmission that only the TCP mode reaches (behind config.UseTCP) has no retransmission to be equal to:
+	// it is judged on its own (fields below, S8 for the count); S2 speaks of the UDP exchange
+	tcpOnly := func(s SendSite) bool {
+		return anyFact(factsAt(s.Call.Block()), func(f Cmp) bool { return isUseTCPFact(f, a, true) })
+	}
 	var reqAlloc ssa.Value
+	var tcpAllocs []ssa.Value
 	same := true
 	for _, s := range sites {
 		if s.Fn != sender {
+			continue
+		}
+		if tcpOnly(s) {
+			tcpAllocs = append(tcpAllocs, s.PayVal)
 			continue
 		}
 		if reqAlloc == nil {
@@ -238,12 +248,52 @@ func checkC03(c *Check, p *Program) {
 		}
 	}
 	_, isAlloc := reqAlloc.(*ssa.Alloc)
+	// "the number of the request in flight": the counter itself, or the request's own SeqNumber field - S4 makes it
+	// a copy of the counter taken under the lock, S2 fixes it before the first transmission, and S3 lets nobody
+	// else write the counter while the lock is held, so the two are equal until the increment
+	isCounter := func(v ssa.Value) bool {
+		if isLoadOf(v, a.seqNumber) {
+			return true
+		}
+		u, ok := v.(*ssa.UnOp)
+		if !ok || u.Op != token.MUL || reqAlloc == nil {
+			return false
+		}
+		fa, ok := u.X.(*ssa.FieldAddr)
+		if !ok || fa.X != reqAlloc {
+			return false
+		}
+		f := fieldOfAddr(fa)
+		return f != nil && f.Name() == "SeqNumber"
+	}
+	seqMatch := func(f Cmp, resF *types.Var) bool {
+		return f.Op == token.EQL && ((isLoadOf(f.X, resF) && isCounter(f.Y)) || (isLoadOf(f.Y, resF) && isCounter(f.X)))
+	}
 	c.Decide(same && isAlloc, "C03.S2", FuncName(sender)+" one request value", p.Pos(sender.Pos()), "every transmission passes the same freshly allocated request", "transmissions pass different request values: a retransmission need not equal the first transmission")
 	var first ssa.CallInstruction
 	for _, s := range sites {
-		if s.Fn == sender && (first == nil || instrDominates(s.Call, first)) {
+		if s.Fn == sender && !tcpOnly(s) && (first == nil || instrDominates(s.Call, first)) {
 			first = s.Call
 		}
+	}
+	// the TCP-only request: a fresh value carrying the connection's channel and the caller's message
+	for _, ta := range tcpAllocs {
+		if ta == reqAlloc {
+			continue
+		}
+		al, okA := ta.(*ssa.Alloc)
+		c.Decide(okA, "C03.S4", FuncName(sender)+" TCP request is a fresh value", p.Pos(sender.Pos()), "composite literal", "the request transmitted on the TCP path is not a freshly built value")
+		if !okA {
+			continue
+		}
+		fsT := fieldStores(al)
+		chF, plF := fieldByName(al.Type(), "Channel"), fieldByName(al.Type(), "Payload")
+		okC := len(fsT[chF]) == 1 && isLoadOf(fsT[chF][0].Val, a.channel)
+		okP := false
+		if len(fsT[plF]) == 1 {
+			_, okP = unspill(fsT[plF][0].Val).(*ssa.Parameter)
+		}
+		c.Decide(okC && okP, "C03.S4", FuncName(sender)+" TCP request carries conn.channel and the argument", p.InstrPos(al), "Channel = conn.channel, Payload = parameter", "the request sent on the TCP path does not carry the connection's channel and the caller's message")
 	}
 	if isAlloc && first != nil {
 		fs := fieldStores(reqAlloc)
@@ -302,7 +352,7 @@ func checkC03(c *Check, p *Program) {
 		if ok && bo.Op == token.ADD && !isInc {
 			// res.SeqNumber + 1 behind res.SeqNumber == conn.seqNumber is the same number
 			seqResF := p.Field("knx/knxnet", "TunnelRes", "SeqNumber")
-			if isLoadOf(bo.X, seqResF) && anyFact(facts, func(f Cmp) bool { return cmpIsFieldEq(f, seqResF, a.seqNumber) }) {
+			if isLoadOf(bo.X, seqResF) && anyFact(facts, func(f Cmp) bool { return seqMatch(f, seqResF) }) {
 				isInc = true
 			}
 		}
@@ -317,7 +367,7 @@ func checkC03(c *Check, p *Program) {
 		nInc++
 		_, _, inAck := inSelectRecvOn(st.Block(), a.ack)
 		seqRes := p.Field("knx/knxnet", "TunnelRes", "SeqNumber")
-		match := anyFact(facts, func(f Cmp) bool { return cmpIsFieldEq(f, seqRes, a.seqNumber) })
+		match := anyFact(facts, func(f Cmp) bool { return seqMatch(f, seqRes) })
 		open := false
 		if sel, _, ok := inSelectRecvOn(st.Block(), a.ack); ok {
 			okv := selectRecvOK(sel)
@@ -334,7 +384,7 @@ func checkC03(c *Check, p *Program) {
 		for _, b := range fnS.Blocks {
 			for _, sc := range b.Succs {
 				f, has := edgeFact(b, sc)
-				if !has || !cmpIsFieldEq(f, seqRes, a.seqNumber) {
+				if !has || !seqMatch(f, seqRes) {
 					continue
 				}
 				nEdges++
@@ -370,7 +420,7 @@ func checkC03(c *Check, p *Program) {
 			okv := selectRecvOK(sel)
 			okOpen = okv != nil && anyFact(facts, func(f Cmp) bool { return cmpIsBool(f, true, func(v ssa.Value) bool { return v == okv }) })
 		}
-		match := anyFact(facts, func(f Cmp) bool { return cmpIsFieldEq(f, seqRes, a.seqNumber) })
+		match := anyFact(facts, func(f Cmp) bool { return seqMatch(f, seqRes) })
 		okSt := anyFact(facts, func(f Cmp) bool { return cmpIsFieldConst(f, statusRes, token.EQL, 0) })
 		c.Decide(inAck && okOpen && match && okSt, "C03.S5", FuncName(sender)+" nil return", pos,
 			"dominated by: receive on Tunnel.ack, channel open, res.SeqNumber == conn.seqNumber, res.Status == 0",
@@ -407,7 +457,7 @@ func checkC03(c *Check, p *Program) {
 			return // closed-channel branch
 		}
 		nEff++
-		match := anyFact(facts, func(f Cmp) bool { return cmpIsFieldEq(f, seqRes, a.seqNumber) })
+		match := anyFact(facts, func(f Cmp) bool { return seqMatch(f, seqRes) })
 		c.Decide(match, "C03.S5", FuncName(sender)+" ack effect behind sequence match", p.InstrPos(in), "the sender "+what+" only behind res.SeqNumber == conn.seqNumber", "in the acknowledgement case the sender "+what+" without the acknowledgement's sequence number matching: an acknowledgement for another request is not ignored")
 	})
 	c.Floor("C03.S5", "effects inside the acknowledgement case", nEff, 2)
@@ -419,7 +469,7 @@ func checkC03(c *Check, p *Program) {
 			continue
 		}
 		cmp, _ := cmpOf(iff.Cond, true)
-		if !((isLoadOf(cmp.X, seqRes) && isLoadOf(cmp.Y, a.seqNumber)) || (isLoadOf(cmp.Y, seqRes) && isLoadOf(cmp.X, a.seqNumber))) {
+		if !((isLoadOf(cmp.X, seqRes) && isCounter(cmp.Y)) || (isLoadOf(cmp.Y, seqRes) && isCounter(cmp.X))) {
 			continue
 		}
 		var target *ssa.BasicBlock
